@@ -252,6 +252,19 @@ def make_class_harness(which, cls, first_bytes, byteorder, ptr_size):
                 for n, v in zip(names, vals)] + [z3.BoolVal(True)]))
         ctx.prove(tag + "/RT/consumes-exactly-its-bytes", zint(nread) == enc.zlen())
         ctx.prove(tag + "/RT/reader-position", zint(rd.consumed) == enc.zlen())
+        # ---- the SAME object encoded again, for the other pointer size: validation is part of every encode, not of the first one
+        other_ps = 4 if ptr_size == 8 else 8
+        try:
+            obj.encode(byteorder, other_ps)
+            again = "ok"
+        except ValueError:
+            again = "ValueError"
+        except (OverflowError, AssertionError, TypeError, KeyError, IndexError) as e:
+            ctx.fail(tag + "/REJ/second-encode-raises-only-ValueError", "raised %s" % type(e).__name__)
+            return
+        ctx.cover("second-encode")
+        ok2 = std_valid(sforms, scount, vals, other_ps)
+        ctx.prove(tag + "/ACC/every-encode-validates-for-its-own-pointer-size", ok2 if again == "ok" else z3.Not(ok2))
 
     return harness
 
@@ -313,6 +326,17 @@ def replay_class(which, cls, byteorder, ptr_size):
             return dict(info, confirmed=True, observed="decode raised %s: %s" % (type(e).__name__, e))
         if d != obj or n != len(enc) or type(d) is not cls:
             return dict(info, confirmed=True, observed="decode -> %r, %d" % (d, n), expected="%r, %d" % (obj, len(enc)))
+        other_ps = 4 if ptr_size == 8 else 8
+        want2 = _native_valid(sforms, scount, list(vals.values()), other_ps)
+        try:
+            obj.encode(byteorder, other_ps)
+            got2 = True
+        except ValueError:
+            got2 = False
+        except Exception as e:
+            return dict(info, confirmed=True, observed="second encode (pointer size %d) raised %s: %s" % (other_ps, type(e).__name__, e))
+        if got2 != want2:
+            return dict(info, confirmed=True, observed="second encode for pointer size %d %s" % (other_ps, "accepted" if got2 else "rejected"), expected="accepted" if want2 else "rejected")
         return dict(info, confirmed=False, observed="native run satisfies the contract")
 
     return replay
